@@ -167,6 +167,23 @@ func (c *channel) enqueue(req request, responseChan chan<- response, streaming b
 		return
 	case c.sendQ <- req:
 		vEmit("HandOff", c.node.ID(), req.msg.Metadata.MessageID)
+		if c.parentCtx.Err() != nil {
+			// the node was closed: the sender may be gone already
+			c.drainSendQ()
+		}
+	}
+}
+
+// drainSendQ answers the requests that are still buffered in the send queue
+// of a closed node.
+func (c *channel) drainSendQ() {
+	for {
+		select {
+		case req := <-c.sendQ:
+			c.routeResponse(req.msg.Metadata.MessageID, response{nid: c.node.ID(), err: fmt.Errorf("channel closed")})
+		default:
+			return
+		}
 	}
 }
 
@@ -246,6 +263,7 @@ func (c *channel) sender() {
 	for {
 		select {
 		case <-c.parentCtx.Done():
+			c.drainSendQ()
 			vEmit("SenderExit", c.node.ID(), 0)
 			return
 		case req = <-c.sendQ:
@@ -304,6 +322,8 @@ func (c *channel) receiver() {
 		vGate("RcvLoopEnd", c.node.ID(), 0)
 		select {
 		case <-c.parentCtx.Done():
+			// the node is closed: fail the requests that still wait for a reply
+			c.cancelPendingMsgs()
 			vEmit("ReceiverExit", c.node.ID(), 0)
 			return
 		default:
